@@ -84,6 +84,10 @@ struct LayerM {
     /// the storage keeps cells outside the layer's rectangle (what the editor leaves behind after a layer/canvas resize)
     #[serde(default)]
     margin: (u8, u8),
+    /// layer attributes that are no stacking attributes and must not influence the picture, set after the content:
+    /// bits 0-1 role (Normal, PastePreview, PasteImage, Image), bit 2 is_locked, bit 3 is_alpha_channel_locked, bit 4 title + colour tag
+    #[serde(default)]
+    extras: u8,
 }
 
 #[derive(Clone, Debug, Hash, Serialize, Deserialize)]
@@ -186,6 +190,18 @@ fn build_layer(m: &LayerM, page: usize) -> Layer {
             l.set_offset((bx as i32, by as i32));
             l.set_preview_offset(Some(icy_engine::Position::new(m.ox as i32, m.oy as i32)));
         }
+    }
+    l.role = match m.extras & 3 {
+        0 => icy_engine::Role::Normal,
+        1 => icy_engine::Role::PastePreview,
+        2 => icy_engine::Role::PasteImage,
+        _ => icy_engine::Role::Image,
+    };
+    l.properties.is_locked = m.extras & 4 != 0;
+    l.properties.is_alpha_channel_locked = m.extras & 8 != 0;
+    if m.extras & 16 != 0 {
+        l.properties.title = "Background".to_string();
+        l.properties.color = Some(icy_engine::Color::new(200, 30, 30));
     }
     l.properties.is_visible = m.visible;
     l
@@ -590,10 +606,13 @@ fn layer(max_cells: usize) -> BoxedStrategy<LayerM> {
     let base_delta = prop_oneof![17 => Just(None), 3 => (-3i8..=3, -3i8..=3).prop_map(Some)];
     // 20% of the layers were shrunk after drawing: their storage holds visible cells outside the rectangle
     let margin = prop_oneof![8 => Just((0u8, 0u8)), 1 => (1u8..=3, 0u8..=2), 1 => (0u8..=3, 1u8..=2)];
-    (geometry, props, fill, cells, base_delta, margin)
-        .prop_map(|((w, h, ox, oy), (mode, alpha, visible, compact), fill, raw, bd, margin)| LayerM {
+    // 30% of the layers carry non-default values of attributes that are no stacking attributes (role, locks, title, colour tag)
+    let extras = prop_oneof![7 => Just(0u8), 3 => 1u8..32];
+    (geometry, props, fill, cells, base_delta, margin, extras)
+        .prop_map(|((w, h, ox, oy), (mode, alpha, visible, compact), fill, raw, bd, margin, extras)| LayerM {
             base: bd.map(|(a, b)| (ox + a, oy + b)),
             margin,
+            extras,
             w,
             h,
             ox,
@@ -648,12 +667,12 @@ fn tiny_layer(code: u64) -> LayerM {
     let visible = rest % 2 == 0;
     let alpha = (rest / 2) % 2 == 0;
     let mode = (rest / 4) as u8;
-    LayerM { w: 1, h: 1, ox: 0, oy: 0, mode, alpha, visible, compact: false, fill: None, cells: tiny_cell(kind).map(|v| CellM { x: 0, y: 0, v }).into_iter().collect(), base: None, margin: (0, 0) }
+    LayerM { w: 1, h: 1, ox: 0, oy: 0, mode, alpha, visible, compact: false, fill: None, cells: tiny_cell(kind).map(|v| CellM { x: 0, y: 0, v }).into_iter().collect(), base: None, margin: (0, 0), extras: 0 }
 }
 
 fn tiny_case(i: u64) -> Case {
     let layers = vec![tiny_layer(i % TINY_PER_LAYER), tiny_layer(i / TINY_PER_LAYER % TINY_PER_LAYER), tiny_layer(i / TINY_PER_LAYER / TINY_PER_LAYER)];
-    let one = |ch, fg, bg, mode, alpha| LayerM { w: 1, h: 1, ox: 0, oy: 0, mode, alpha, visible: true, compact: false, fill: None, cells: vec![CellM { x: 0, y: 0, v: CellV { ch, fg, bg, attr: 0, font: 0 } }], base: None, margin: (0, 0) };
+    let one = |ch, fg, bg, mode, alpha| LayerM { w: 1, h: 1, ox: 0, oy: 0, mode, alpha, visible: true, compact: false, fill: None, cells: vec![CellM { x: 0, y: 0, v: CellV { ch, fg, bg, attr: 0, font: 0 } }], base: None, margin: (0, 0), extras: 0 };
     Case { font_page: 0, terminal: false, layers, extra: one('E', 14, 6, 0, true), alt: vec![one('Z', 1, 3, 0, false)], dx: 1, dy: -1 }
 }
 
@@ -662,7 +681,7 @@ fn main() {
     eng.rule(
         "stacks: generated stacks of 1..=5 layers (bottom to top), each 1..=12 x 1..=8 at offsets -4..=6, mode Normal/Chars/Attributes, alpha or not, visible (85%) or hidden, \
          optional fill cell plus 0..=14 sparse cells (plain cells, transparent-colour half-block cells, canonical and non-canonical invisible cells, font pages 0..2), rows optionally \
-         compacted, 20% of the layers shrunk with Layer::set_size after drawing (visible cells stay in the storage outside the rectangle); the same default_font_page (0/1/3) on every layer, no overlay layer, terminal-buffer flag in 20% (font page 0). Auxiliary inputs: `extra` (hidden layer for L1, \
+         compacted, 20% of the layers shrunk with Layer::set_size after drawing (visible cells stay in the storage outside the rectangle), 30% with non-default role / lock flags / title / colour tag (no stacking attributes); the same default_font_page (0/1/3) on every layer, no overlay layer, terminal-buffer flag in 20% (font page 0). Auxiliary inputs: `extra` (hidden layer for L1, \
          geometry of the empty alpha layer for L3), `alt` (0..=3 layers replacing everything beneath an opaque layer, L4), translation d in -6..=6 squared (L5, L6). All six laws are \
          evaluated on every case at every position of the bounding box of all layers involved plus a 2-cell border (insertion laws at every index, per-layer laws for every layer). \
          tiny_exhaustive: all 96^3 stacks of three 1x1 layers on one position (3 modes x alpha x visible x 8 cell kinds each) through the same six laws. \
